@@ -4,7 +4,7 @@ import seqfam, vlib, exprgen
 from exprgen import Gen, sql
 
 ASSUME = ["division only by non-zero literals", "numbers are small integers and halves (exact rationals are the definition)",
-          "functions decided by value: abs, floor, ceil, upper, lower, concat, coalesce/if_null (over the test alphabet); other built-ins are not decided here",
+          "functions decided by value (spec/lib/Expr Call): abs floor ceil ceiling round sign power mod sqrt greatest least length indexof upper lower concat trim ltrim rtrim substring replace lpad rpad startswith endswith coalesce if_null null_if is_null is_not_null is_numeric is_string is_bool, each inside the domain where its one-line documentation is unambiguous (0-based positions as in the source; a NULL / wrong-kind argument may give any value); trigonometric / log / hash / json / array / datetime / regexp / conversion built-ins are not decided here",
           "an expression outside the decided domain (mixed kinds, ordering of strings) may take any value / decision",
           "a not-true comparison in SELECT position may surface as false or NULL"]
 
@@ -77,6 +77,24 @@ def run(tier):
             sc = mk(rng, g, depth, rng.choice([3, 5, 6]), "sync" if i % 2 else "emit", positions[i % len(positions)], kinds)
             sc["meta"]["profile"] = name
             scen.append(sc)
+    # function library: calls of the built-in scalar functions inside each function's decided domain, as select items and in WHERE
+    g = Gen(rng, nulls=False)
+    for i in range(int(n * 0.25)):
+        sel = []
+        for k in range(rng.choice([1, 2, 3])):
+            e = rng.choice([g.fn_num, g.fn_num, g.fn_str, g.fn_str, g.fn_bool, g.fn_misc])()
+            if e["t"] != "fn":
+                e = g.fn_num(1)
+            sel.append({"al": "r%d" % k, "e": e})
+        meta = {"fam": "direct", "star": 0, "chan": 0, "sel": sel, "profile": "fn_lib"}
+        sqltxt = "SELECT " + ", ".join("%s AS %s" % (sql(it["e"]), it["al"]) for it in sel) + " FROM stream"
+        if i % 3 == 0:
+            meta["where"] = g.fn_pred()
+            sqltxt += " WHERE " + sql(meta["where"])
+        sc = {"meta": meta, "sql": sqltxt, "rows": [g.fn_row(j + 1) for j in range(rng.choice([4, 6, 8]))]}
+        if i % 2:
+            sc["mode"] = "sync"
+        scen.append(sc)
     seqfam.run_scenarios(res, scen, "TraceDirect", tag="expr")
     seqfam.run_pinned(res, "TraceDirect")
     nerr = sum(1 for w, _ in res.violations if w.startswith("engine_execerr"))
